@@ -74,6 +74,17 @@ def run(ctx):
                     add(3, 0, 'lzma2:dict=%d,mf=%s,mode=%s,nice=%d' % (dsz, mf, rng.choice(['fast', 'normal']), rng.choice([8, 32, 273])), pd, 'raw dict=%d mf=%s on data with period %d' % (dsz, mf, per), mode=rng.choice([0, 3]), dec=('raw', 'lzma2:dict=%d' % dsz))
                 if per == dsz + 1:
                     add(4, 1 << 8, 'lzma1:dict=%d,mf=hc4' % dsz if False else 'lzma2:dict=%d,mf=hc4,depth=0' % dsz, pd, 'stream dict=%d hc4 on data with period %d' % (dsz, per), mode=0, dec=('xz', 0))
+    # every filter in every position of a chain (first / second / third before LZMA2): a filter that is not first gets its
+    # input from another filter's output buffer (in-place paths), a first one straight from the caller
+    units = ['delta:dist=1', 'delta:dist=255', 'delta:dist=256', 'x86', 'arm', 'armthumb', 'arm64', 'powerpc', 'ia64', 'sparc', 'riscv']
+    pos_data = [d_ for d_ in inputs if 300 <= len(d_) <= 9000][:2] + [inputs[-4]]
+    for u in units:
+        for posn in (0, 1, 2):
+            fill = [rng.choice(['delta:dist=3', 'x86', 'arm64', 'delta:dist=200']) for _k in range(posn)]
+            fs = '+'.join(fill + [u, 'lzma2:dict=4KiB'])
+            for d_ in (pos_data if not ctx.quick() else pos_data[:2]):
+                add(4, rng.choice([0, 1, 4, 10]) << 8, fs, d_, 'stream ' + fs, dec=('xz', 0))
+                if posn and rng.random() < 0.5: add(3, 0, fs, d_, 'raw ' + fs, dec=('raw', fs))
     # run encoders: group by bias so that one process handles one bias value
     bygroup = {}
     for j in jobs: bygroup.setdefault(j[4], []).append(j)
